@@ -6,6 +6,7 @@ import (
 	"go/constant"
 	"go/token"
 	"go/types"
+	"strings"
 
 	"cvsslint/internal/load"
 
@@ -51,6 +52,7 @@ type SHas struct{ M, Key Sum }
 type SRev struct {
 	M, Val Sum
 	Else   Sum
+	Fold   bool // values compared with strings.EqualFold
 }
 type SCall struct {
 	Fn   *types.Func
@@ -59,6 +61,7 @@ type SCall struct {
 }
 type SCmp struct {
 	Neg  bool
+	Fold bool // strings.EqualFold instead of ==
 	A, B Sum
 }
 type SNot struct{ X Sum }
@@ -399,35 +402,92 @@ func (tr *translator) rangeStmt(s *ast.RangeStmt, rest []ast.Stmt, e env) Sum {
 	if s.Tok != token.DEFINE || s.Key == nil || s.Value == nil {
 		tr.fail(s.Pos(), "range loop is not of the form  for k, v := range M")
 	}
+	if _, ok := s.Key.(*ast.Ident); !ok {
+		tr.fail(s.Pos(), "range loop is not of the form  for k, v := range M")
+	}
+	if _, ok := s.Value.(*ast.Ident); !ok {
+		tr.fail(s.Pos(), "range loop is not of the form  for k, v := range M")
+	}
 	kv, _ := tr.info.Defs[s.Key.(*ast.Ident)].(*types.Var)
 	vv, _ := tr.info.Defs[s.Value.(*ast.Ident)].(*types.Var)
-	if kv == nil || vv == nil || len(s.Body.List) != 1 {
-		tr.fail(s.Pos(), "range loop body is not a single if-statement")
+	if kv == nil || vv == nil {
+		tr.fail(s.Pos(), "range loop without key and value variables")
 	}
-	ifs, ok := s.Body.List[0].(*ast.IfStmt)
-	if !ok || ifs.Init != nil || ifs.Else != nil || len(ifs.Body.List) != 1 {
-		tr.fail(s.Body.Pos(), "range loop body is not  if X == v { return k }")
+	// accepted bodies:
+	//   if C { return k }
+	//   if !C { continue } ; return k          (C written as == / != / strings.EqualFold)
+	var cond ast.Expr
+	negated := false
+	var ret *ast.ReturnStmt
+	body := s.Body.List
+	switch {
+	case len(body) == 1:
+		ifs, ok := body[0].(*ast.IfStmt)
+		if !ok || ifs.Init != nil || ifs.Else != nil || len(ifs.Body.List) != 1 {
+			tr.fail(s.Body.Pos(), "range loop body is not  if X == v { return k }")
+		}
+		cond = ifs.Cond
+		ret, _ = ifs.Body.List[0].(*ast.ReturnStmt)
+	case len(body) == 2:
+		ifs, ok := body[0].(*ast.IfStmt)
+		if !ok || ifs.Init != nil || ifs.Else != nil || len(ifs.Body.List) != 1 {
+			tr.fail(s.Body.Pos(), "range loop body is not  if X != v { continue }; return k")
+		}
+		br, ok := ifs.Body.List[0].(*ast.BranchStmt)
+		if !ok || br.Tok != token.CONTINUE || br.Label != nil {
+			tr.fail(s.Body.Pos(), "range loop body is not  if X != v { continue }; return k")
+		}
+		cond = ifs.Cond
+		negated = true
+		ret, _ = body[1].(*ast.ReturnStmt)
+	default:
+		tr.fail(s.Pos(), "range loop body is not a reverse look-up")
 	}
-	cmp, ok := ast.Unparen(ifs.Cond).(*ast.BinaryExpr)
-	if !ok || cmp.Op != token.EQL {
-		tr.fail(ifs.Cond.Pos(), "range loop condition is not an equality")
+	cond = ast.Unparen(cond)
+	if u, ok := cond.(*ast.UnaryExpr); ok && u.Op == token.NOT {
+		cond = ast.Unparen(u.X)
+		negated = !negated
 	}
 	isV := func(x ast.Expr) bool {
 		id, ok := ast.Unparen(x).(*ast.Ident)
 		return ok && tr.info.Uses[id] == vv
 	}
+	var x0, x1 ast.Expr
+	fold := false
+	switch c := cond.(type) {
+	case *ast.BinaryExpr:
+		switch c.Op {
+		case token.EQL:
+		case token.NEQ:
+			negated = !negated
+		default:
+			tr.fail(cond.Pos(), "range loop condition is not an equality")
+		}
+		x0, x1 = c.X, c.Y
+	case *ast.CallExpr:
+		callee, _ := typeutil.Callee(tr.info, c).(*types.Func)
+		if callee == nil || callee.FullName() != "strings.EqualFold" || len(c.Args) != 2 {
+			tr.fail(cond.Pos(), "range loop condition is not an equality")
+		}
+		fold = true
+		x0, x1 = c.Args[0], c.Args[1]
+	default:
+		tr.fail(cond.Pos(), "range loop condition is not an equality")
+	}
+	if negated {
+		tr.fail(cond.Pos(), "range loop returns the key of a non-matching entry")
+	}
 	var other ast.Expr
 	switch {
-	case isV(cmp.Y) && !isV(cmp.X):
-		other = cmp.X
-	case isV(cmp.X) && !isV(cmp.Y):
-		other = cmp.Y
+	case isV(x1) && !isV(x0):
+		other = x0
+	case isV(x0) && !isV(x1):
+		other = x1
 	default:
-		tr.fail(ifs.Cond.Pos(), "range loop condition does not compare the map value with one other expression")
+		tr.fail(cond.Pos(), "range loop condition does not compare the map value with one other expression")
 	}
-	ret, ok := ifs.Body.List[0].(*ast.ReturnStmt)
-	if !ok || len(ret.Results) != 1 {
-		tr.fail(ifs.Body.Pos(), "range loop does not return the key")
+	if ret == nil || len(ret.Results) != 1 {
+		tr.fail(s.Body.Pos(), "range loop does not return the key")
 	}
 	if id, ok := ast.Unparen(ret.Results[0]).(*ast.Ident); !ok || tr.info.Uses[id] != kv {
 		tr.fail(ret.Pos(), "range loop does not return the key")
@@ -440,7 +500,7 @@ func (tr *translator) rangeStmt(s *ast.RangeStmt, rest []ast.Stmt, e env) Sum {
 		return true
 	})
 	tr.s.RangeLoops++
-	return SRev{M: tr.expr(s.X, e), Val: tr.expr(other, e), Else: tr.stmts(rest, e)}
+	return SRev{M: tr.expr(s.X, e), Val: tr.expr(other, e), Else: tr.stmts(rest, e), Fold: fold}
 }
 
 func (tr *translator) expr(x ast.Expr, e env) Sum {
@@ -515,6 +575,9 @@ func (tr *translator) expr(x ast.Expr, e env) Sum {
 			tr.fail(n.Pos(), "conversion is outside the fragment")
 		}
 		callee, _ := typeutil.Callee(tr.info, n).(*types.Func)
+		if callee != nil && callee.FullName() == "strings.EqualFold" && len(n.Args) == 2 {
+			return SCmp{Fold: true, A: tr.expr(n.Args[0], e), B: tr.expr(n.Args[1], e)}
+		}
 		if callee == nil || callee.Pkg() == nil || !load.IsLib(callee.Pkg().Path()) {
 			tr.fail(n.Pos(), "call of a function outside the library packages or a dynamic call")
 		}
@@ -637,7 +700,7 @@ func (f *Facts) eval(s Sum, b map[*types.Var]Value) Value {
 		var hits []Value
 		if t != nil {
 			for _, e := range t.Entries {
-				if Same(e.Val, val) {
+				if Same(e.Val, val) || (x.Fold && sameFold(e.Val, val)) {
 					hits = append(hits, e.Key)
 				}
 			}
@@ -665,7 +728,7 @@ func (f *Facts) eval(s Sum, b map[*types.Var]Value) Value {
 				return v
 			}
 		}
-		eq := Same(av, bv)
+		eq := Same(av, bv) || (x.Fold && sameFold(av, bv))
 		return boolVal(eq != x.Neg)
 	case SNot:
 		v, bad := f.evalBool(x.X, b)
@@ -841,4 +904,12 @@ func (f *Facts) StringConsts(fn *types.Func) map[string]bool {
 	}
 	visit(fn)
 	return out
+}
+
+// sameFold: two string constants equal under Unicode case folding.
+func sameFold(a, b Value) bool {
+	if a.Kind != VConst || b.Kind != VConst || a.C == nil || b.C == nil || a.C.Kind() != constant.String || b.C.Kind() != constant.String {
+		return false
+	}
+	return strings.EqualFold(constant.StringVal(a.C), constant.StringVal(b.C))
 }
